@@ -747,6 +747,8 @@ func (c *ClientConn) readDisconnectLoop() {
 
 func (c *ClientConn) readUpstreamChunkAckLoop() {
 	defer func() {
+		c.upstreams.mu.Lock()
+		defer c.upstreams.mu.Unlock()
 		for _, ackCh := range c.upstreams.acks {
 			close(ackCh)
 		}
